@@ -87,6 +87,11 @@ pub trait Engine: Sync {
     fn rule(&self) -> String;
     fn components(&self) -> Value;
     fn assumptions(&self) -> Vec<String>;
+    /// name of the counter that counts individual executions when one run holds many (a sweep);
+    /// evidence.evaluations then reports that counter and `runs` the number of runs
+    fn evaluations_counter(&self) -> Option<&'static str> {
+        None
+    }
     /// expected probes: a probe stuck at zero in a thorough run is reported as a warning
     fn expected_probes(&self) -> Vec<&'static str> {
         vec![]
@@ -749,7 +754,8 @@ pub fn check_main(e: &dyn Engine, tier: Tier, seed: u64, workers: usize, runs_ov
         "seed": seed,
         "level": e.level(),
         "coverage": {
-            "evaluations": evaluations,
+            "evaluations": e.evaluations_counter().and_then(|c| stats.get(c).copied()).unwrap_or(evaluations),
+            "runs": evaluations,
             "distinct_nontrivial": shapes.len(),
             "rule": e.rule(),
             "samples": samples,
